@@ -79,6 +79,14 @@ func (r *Run) oblige(fr *Frame, kind, sub, name string, reach Term, goal Term, p
 		// trivially true after simplification: still counts as a discharged obligation
 	}
 	top := r.top
+	// the same program point can be reached more than once (a deferred call runs at every return): number the copies
+	if r.nameCount == nil {
+		r.nameCount = map[string]int{}
+	}
+	r.nameCount[name]++
+	if k := r.nameCount[name]; k > 1 {
+		name = fmt.Sprintf("%s~%d", name, k)
+	}
 	o := &Obligation{
 		Name: funcKey(top.fn) + "/" + name, Kind: kind, Sub: sub, Func: funcKey(top.fn), Props: props,
 		Pos: r.posString(pos), Text: text, mark: r.ctx.Mark(), hyps: []Term{reach}, goal: goal, ctx: r.ctx,
@@ -629,7 +637,15 @@ func (r *Run) scanCall(fr *Frame, c *ssa.CallCommon, ws *writeSet, depth int) {
 	if c.IsInvoke() {
 		key := "iface:" + ifaceKey(c.Value.Type(), c.Method.Name())
 		if sp := r.specs.Funcs[key]; sp != nil {
-			r.scanSpecAssigns(sp, ws)
+			msig := c.Method.Type().(*types.Signature)
+			names := []string{"self"}
+			for i := 0; i < msig.Params().Len(); i++ {
+				names = append(names, msig.Params().At(i).Name())
+			}
+			if len(sp.Params) > 0 {
+				names = append([]string{"self"}, sp.Params...)
+			}
+			r.scanSpecAssigns(sp, ws, &callCtx{fr: fr, cc: c, names: names, args: append([]ssa.Value{c.Value}, c.Args...), sig: msig})
 			return
 		}
 		ws.all = true; dbg("ws.all #5 in %s", funcKey(fr.fn))
@@ -746,7 +762,20 @@ func (r *Run) scanStatic(fr *Frame, f *ssa.Function, c *ssa.CallCommon, ws *writ
 		for _, p := range f.Params {
 			names = append(names, p.Name())
 		}
-		r.scanSpecAssigns(sp, ws, &callCtx{fr: fr, cc: c, names: names})
+		if len(names) == 0 {
+			// external function without a body: names from the signature / the contract
+			sig := f.Signature
+			if sig.Recv() != nil {
+				names = append(names, "self")
+			}
+			for i := 0; i < sig.Params().Len(); i++ {
+				names = append(names, sig.Params().At(i).Name())
+			}
+			if len(sp.Params) > 0 {
+				names = sp.Params
+			}
+		}
+		r.scanSpecAssigns(sp, ws, &callCtx{fr: fr, cc: c, names: names, args: c.Args, sig: f.Signature})
 		return
 	}
 	if (f.Parent() != nil || (sp != nil && sp.Inline)) && depth < maxInlineDepth && len(f.Blocks) > 0 {
@@ -818,6 +847,14 @@ func (r *Run) scanSpecAssigns(sp *FuncSpec, ws *writeSet, ctx ...*callCtx) {
 				if id, ok := sel.X.(*EIdent); ok {
 					if comp, base := ctx[0].paramField(r, id.Name, sel.Sel); comp != "" {
 						ws.addSite(comp, base, ctx[0].fr)
+						continue
+					}
+				}
+			}
+			if u, ok := a.(*EUnary); ok && u.Op == "*" {
+				if id, ok := u.X.(*EIdent); ok {
+					if comp := ctx[0].derefComp(r, sp, id.Name); comp != "" {
+						ws.addWild(comp)
 						continue
 					}
 				}
@@ -1391,16 +1428,42 @@ type callCtx struct {
 	fr    *Frame
 	cc    *ssa.CallCommon
 	names []string
+	args  []ssa.Value // aligned with names
+	sig   *types.Signature
+}
+
+// derefComp: the box component designated by "*name" at this call (name a parameter or a result).
+func (c *callCtx) derefComp(r *Run, sp *FuncSpec, name string) string {
+	for i, n := range c.names {
+		if n == name && i < len(c.args) {
+			if pt, ok := c.args[i].Type().Underlying().(*types.Pointer); ok {
+				comp, _ := r.boxComp(pt.Elem())
+				return comp
+			}
+		}
+	}
+	if c.sig != nil {
+		rn := resultNames(c.sig, sp)
+		for i, n := range rn {
+			if n == name || name == fmt.Sprintf("result%d", i) || (name == "result" && len(rn) == 1) {
+				if pt, ok := c.sig.Results().At(i).Type().Underlying().(*types.Pointer); ok {
+					comp, _ := r.boxComp(pt.Elem())
+					return comp
+				}
+			}
+		}
+	}
+	return ""
 }
 
 // paramField: component and argument value for "param.field" at this call site ("" if not a plain field of a
 // pointer-to-struct parameter).
 func (c *callCtx) paramField(r *Run, param, field string) (string, ssa.Value) {
 	for i, n := range c.names {
-		if n != param || i >= len(c.cc.Args) {
+		if n != param || i >= len(c.args) {
 			continue
 		}
-		arg := c.cc.Args[i]
+		arg := c.args[i]
 		pt, ok := arg.Type().Underlying().(*types.Pointer)
 		if !ok {
 			return "", nil
